@@ -115,7 +115,7 @@ Qed.
 
 Lemma frame_wr_node st x pts : wf st -> frame (fun y => y = x) st (wr st (NodePts x pts)).
 Proof.
-  intros W. unfold wr. cbn [handle]. unfold node_points. destruct (has_nan pts); [apply frame_refl|].
+  intros W. unfold wr. cbn [handle]. unfold node_points. destruct (has_nan pts); [apply frame_refl|]. destruct (bad_times pts); [apply frame_refl|].
   destruct (merge_batch false (node_rows (s_nodes st) x) (collapse pts)) as [rows d]. cbn [fst].
   exists (toggle (visits (s_edges st) (fuel_of (s_edges st)) x) d). constructor; cbn [s_edges s_nodes s_root].
   - reflexivity.
@@ -135,7 +135,7 @@ Lemma frame_wr_edge st x par pts e0 : wf st -> par <> [] ->
   frame (fun y => y = x) st (wr st (EdgePts x par pts)).
 Proof.
   intros W Hpar Hf. unfold wr. cbn [handle]. unfold edge_points.
-  destruct (has_nan pts); [apply frame_refl|]. destruct (bytes_eqb x par); [apply frame_refl|].
+  destruct (has_nan pts); [apply frame_refl|]. destruct (bad_times pts); [apply frame_refl|]. destruct (bytes_eqb x par); [apply frame_refl|].
   destruct (bytes_eqb x (s_root st) && _); [apply frame_refl|].
   assert (match par with [] => str_root | _ :: _ => par end = par) as -> by (destruct par; [contradiction|reflexivity]).
   rewrite Hf. destruct (merge_batch true (e_pts e0) (collapse pts)) as [rows d]. cbn [fst].
